@@ -8,3 +8,11 @@ import ArtapModel.Props.C03
 import ArtapModel.Props.C13
 import ArtapModel.Props.C16
 import ArtapModel.Props.C08
+import ArtapModel.Props.C05
+import ArtapModel.Props.C06
+import ArtapModel.Props.C12
+import ArtapModel.Props.C14
+import ArtapModel.Props.C15
+import ArtapModel.Props.C17
+import ArtapModel.Props.C19
+import ArtapModel.Props.C20
